@@ -23,7 +23,12 @@ def checks_on_patch(patch):
         out = {}
         known = json.load(open(os.path.join(here, "known_findings.json")))["findings"]
         procs = {}
-        for cid in ALL:
+        # the first check builds and caches the program model of the patched tree; the other 19 then load it
+        env0 = dict(os.environ, VERIF_REPO=tmp, VERIF_EVID_DIR=os.path.join(tmp, "ev_" + ALL[0]))
+        pr0 = subprocess.Popen([os.path.join(here, "check"), ALL[0]], env=env0, stdout=subprocess.PIPE, stderr=subprocess.STDOUT, text=True)
+        txt0 = pr0.communicate()[0]
+        out[ALL[0]] = {"rc": pr0.returncode, "lines": [l for l in txt0.splitlines() if l.startswith(("VIOLATION", "ANALYSIS-ERROR", "  pybrops"))][:8]}
+        for cid in ALL[1:]:
             env = dict(os.environ, VERIF_REPO=tmp, VERIF_EVID_DIR=os.path.join(tmp, "ev_" + cid))
             procs[cid] = subprocess.Popen([os.path.join(here, "check"), cid], env=env, stdout=subprocess.PIPE, stderr=subprocess.STDOUT, text=True)
         for cid, pr in procs.items():
